@@ -2,7 +2,7 @@
 
 check("C09", "model_checking",
       "TLC enumerates the complete product of TLSVerify.tla (issuer x validity x key usage x name set x pin list x role x name mode, plus the "
-      "stream-listener family and the history family: call sequences on one long-lived instance; the clock family: verifier creation and handshake as two steps in time) and proves on it: the verdict is a function of (certificate, configuration), acceptance implies all five conditions, every single-condition failure refuses, role separation, "
+      "stream-listener family and the history family: call sequences on one long-lived instance; the clock family: verifier creation and handshake as two steps in time; the lookup family: repeated lookups of one named client configuration are independent) and proves on it: the verdict is a function of (certificate, configuration), acceptance implies all five conditions, every single-condition failure refuses, role separation, "
       "dNSNames never stand in for receptor names, pins only restrict, the listener binds the certificate to the packet source. Every vector is then "
       "concretised into real X.509 chains, pins and configurations (several 'other name' variants, two SAN encoders) and the real code's verdict is "
       "observed at four layers: ReceptorVerifyFunc, the verifier installed by Prepare*Config/GetClientTLSConfig, a crypto/tls handshake over an "
